@@ -14,3 +14,23 @@ func init() {
 	// semadb logs through the global zerolog logger; keep errors only.
 	zerolog.SetGlobalLevel(zerolog.ErrorLevel)
 }
+
+func cmpI(a, b int64) int {
+	if a < b {
+		return -1
+	}
+	if a > b {
+		return 1
+	}
+	return 0
+}
+
+func cmpF(a, b float64) int {
+	if a < b {
+		return -1
+	}
+	if a > b {
+		return 1
+	}
+	return 0
+}
